@@ -6,5 +6,5 @@ while [ ! -e /root/par/stop ]; do
   seed=$( flock /root/par/queue.lock sh -c 'head -n1 /root/par/queue.txt; sed -i 1d /root/par/queue.txt' )
   if [ -z "$seed" ]; then sleep 20; continue; fi
   echo "== $slot $seed $(date +%T)" >> /root/par/log.txt
-  python3 /verif/tools/par_eval.py $slot $seed >> /root/par/log.txt 2>&1
+  PAR_REUSE_CONFIRM=1 python3 /verif/tools/par_eval.py $slot $seed >> /root/par/log.txt 2>&1
 done
